@@ -168,6 +168,10 @@ def raw_parts(tok):
     return json.loads(b64d(h)), json.loads(b64d(p))
 
 
+HALF_HASH_STRINGS = ["", "some-token", "a", "tok\u200b", "tok", "t\u00f6k", "tk", "\u0442\u043e\u043a\u0435\u043d", "a\u00a0b", "ab", "\U0001f511key", "key",
+                     "\u00e9", "e\u0301"]
+
+
 def half_hash_ref(s, alg):
     d = getattr(hashlib, "sha" + alg[2:])(s.encode()).digest()
     return base64.urlsafe_b64encode(d[:len(d) // 2]).rstrip(b"=").decode()
@@ -550,6 +554,19 @@ def _check_combo(ctx, rt, alg, nonce, extra, aud_as_text):
     if rt in ("code id_token", "code id_token token") and payload.get("c_hash") != half_hash_ref(code, alg):
         ctx.violation("C13:c_hash:%s" % alg[2:], "c_hash is not the left half of the SHA-2 digest", case)
     ctx.compare("half_hash", {"alg": alg}, half_hash_ref("some-token", alg), ctx.model.call("half_hash", {"s": "some-token", "alg": alg}))
+    # create_half_hash itself, over octet strings outside ASCII too (RFC 6749 tokens are VSCHAR, but a provider's generator or a code
+    # taken from the query string may hand over any text; the hash is over the UTF-8 octets as the library has always done): the
+    # library, hashlib and the model agree, and two values that differ only outside ASCII have different hashes
+    from authlib.oidc.core.util import create_half_hash as _chh
+    for s_ in HALF_HASH_STRINGS:
+        lib = _chh(s_, alg)
+        lib = lib.decode() if isinstance(lib, bytes) else lib
+        ref = half_hash_ref(s_, alg)
+        ctx.count("half_hash:%s" % ("ascii" if s_.isascii() else "non-ascii"))
+        if lib != ref:
+            ctx.violation("C13:half_hash:%s:%s" % (alg[2:], "ascii" if s_.isascii() else "non-ascii"),
+                          "create_half_hash is not the left half of the SHA-2 digest of the value's UTF-8 octets", {"alg": alg, "s": s_, "got": lib, "want": ref})
+        ctx.compare("half_hash", {"alg": alg, "s": s_}, lib, ctx.model.call("half_hash", {"s": s_, "alg": alg}))
     # ---- relying party: matching parameters and near-misses
     base = {"iss": ISS, "nonce": nonce, "client": "rp1", "code": code or "", "at": at or "", "now": now + 10, "lw": 0, "key": pub}
     variants = [("match", {}), ("issuer", {"iss": ISS + "/"}), ("issuer-case", {"iss": ISS.upper()}),
@@ -557,6 +574,8 @@ def _check_combo(ctx, rt, alg, nonce, extra, aud_as_text):
                 ("client", {"client": "rp2"}), ("client-case", {"client": "RP1"}),
                 ("client-contained", {"client": "rp"}), ("client-suffix", {"client": "p1"}), ("client-containing", {"client": "rp10"}), ("client-char", {"client": "r"}),
                 ("access-token", {"at": (at or "") + "x"}), ("code", {"code": (code or "") + "x"}),
+                ("access-token-zwsp", {"at": (at or "") + "\u200b"}), ("code-nbsp", {"code": (code or "") + "\u00a0"}),
+                ("access-token-lookalike", {"at": "\u0430" + (at or "")}), ("code-lookalike", {"code": (code or "")[:1] + "\u0441" + (code or "")[1:]}),
                 ("expired", {"now": now + 3601}), ("expired-leeway-ok", {"now": now + 3601, "lw": 5}), ("at-exp", {"now": now + 3600}),
                 ("future-iat", {"now": now - 10}), ("future-iat-leeway", {"now": now - 10, "lw": 10}), ("key", {"key": other_pub})]
     for name, delta in variants:
@@ -569,9 +588,9 @@ def _check_combo(ctx, rt, alg, nonce, extra, aud_as_text):
                                                "access_token": v["at"], "header": hdr, "claims": payload, "now": v["now"], "leeway": v["lw"]})
             ctx.compare("idtoken_rp", dict(case, variant=name), real_v, mv)
         relevant = True
-        if name in ("access-token",) and rt in ("id_token", "code id_token"):
+        if name.startswith("access-token") and rt in ("id_token", "code id_token"):
             relevant = False           # the relying party holds no access token for these response types
-        if name == "code" and rt not in ("code id_token", "code id_token token"):
+        if name.startswith("code") and rt not in ("code id_token", "code id_token token"):
             relevant = False
         if name in ("nonce", "nonce-prefix") and not nonce and rt in ("code", "code token") and not v["nonce"]:
             relevant = False
